@@ -31,6 +31,7 @@ type Violation struct {
 type Record struct {
 	Property   string         `json:"property"`
 	Seed       uint64         `json:"seed"`
+	Index      uint64         `json:"index"`
 	Flavour    string         `json:"flavour,omitempty"`
 	OK         bool           `json:"ok"`
 	Violation  *Violation     `json:"violation,omitempty"`
@@ -57,7 +58,8 @@ type stop struct{ v *Violation }
 type Env struct {
 	Property string
 	Seed     uint64
-	Verbose  bool // keep the full trace (replay / sample runs)
+	Index    uint64 // run index within the batch (selects enumerated partitions)
+	Verbose  bool   // keep the full trace (replay / sample runs)
 
 	rng    *rand.Rand
 	replay bool
@@ -266,6 +268,7 @@ func (e *Env) result() Record {
 	r := Record{
 		Property:   e.Property,
 		Seed:       e.Seed,
+		Index:      e.Index,
 		OK:         e.violation == nil && e.infra == "",
 		Violation:  e.violation,
 		Infra:      e.infra,
